@@ -52,6 +52,7 @@ class StartupRun:
         self.case = case
         self.prog = case["prog"]
         self.trace: list[dict[str, Any]] = []
+        self.expected_events: list[tuple[Any, ...]] = []
         self.classes: dict[int, type] = {}
 
     def log(self, *label: Any) -> None:
@@ -101,18 +102,33 @@ class StartupRun:
             for a in acts:
                 k = a["a"]
                 if k == "publish":
+                    desc = f"d{a['v']}" if a["v"] % 3 == 0 else None
+                    obj = TYPES[a["ty"]](a["v"])
                     if a.get("td") is not None:
                         # a resource handed over together with its teardown callback
-                        add_resource(TYPES[a["ty"]](a["v"]), a["name"], types=[TYPES[a["ty"]]],
+                        add_resource(obj, a["name"], types=[TYPES[a["ty"]]], description=desc,
                                      teardown_callback=lambda id_=a["td"]: self.log("tdRun", id_))
                         self.log("pub", i, a["ty"], a["name"], a["v"])
                         self.log("regTd", i, a["td"])
                     else:
-                        add_resource(TYPES[a["ty"]](a["v"]), a["name"], types=[TYPES[a["ty"]]])
+                        add_resource(obj, a["name"], types=[TYPES[a["ty"]]], description=desc)
                         self.log("pub", i, a["ty"], a["name"], a["v"])
+                    self.expected_events.append(((a["ty"],), self.final_name(i, which, a["name"]), desc, False))
+                    self.probe_readback(i, which, a, obj)
                 elif k == "publishFactory":
-                    add_resource_factory(lambda fid=a["fid"]: Gen(fid), a["name"], types=[TYPES[a["ty"]]])
-                    self.log("pubFac", i, a["ty"], a["name"], a["fid"])
+                    desc = f"fd{a['fid']}" if a["fid"] % 3 == 0 else None
+                    tys = [a["ty"]] + ([a["ty2"]] if "ty2" in a else [])
+                    if a.get("slow"):
+                        async def slow_factory(fid: int = a["fid"], d: int = a["slow"]) -> Gen:
+                            await anyio.sleep(d * TICK)       # an asynchronous factory that takes its time
+                            return Gen(fid)
+
+                        add_resource_factory(slow_factory, a["name"], types=[TYPES[t] for t in tys], description=desc)
+                    else:
+                        add_resource_factory(lambda fid=a["fid"]: Gen(fid), a["name"], types=[TYPES[t] for t in tys], description=desc)
+                    for t in tys:
+                        self.log("pubFac", i, t, a["name"], a["fid"])
+                    self.expected_events.append((tuple(tys), self.final_name(i, which, a["name"]), desc, True))
                 elif k == "await":
                     self.log("req", i, a["ty"], a["name"])
                     v = await get_resource(TYPES[a["ty"]], a["name"])
@@ -127,7 +143,16 @@ class StartupRun:
                         await anyio.lowlevel.checkpoint()
                     self.log("tick", i)
                 elif k == "regTd":
-                    add_teardown_callback(lambda id_=a["id"]: self.log("tdRun", id_))
+                    if a["id"] % 2:
+                        add_teardown_callback(lambda id_=a["id"]: self.log("tdRun", id_))
+                    else:
+                        # pass_exception=True: the surrounding context is left normally, so it gets None
+                        def cb(exc: Any, id_: int = a["id"]) -> None:
+                            if exc is not None:
+                                self.probe_failed(i, f"teardown callback {id_} registered with pass_exception received {exc!r} after a clean exit", "C05,C01")
+                            self.log("tdRun", id_)
+
+                        add_teardown_callback(cb, True)
                     self.log("regTd", i, a["id"])
                     await self.probe_nested(i)      # entering/leaving a context here has no checkpoint
                 elif k == "fail":
@@ -138,6 +163,50 @@ class StartupRun:
             raise
         self.log("prepEnd" if which == "prep" else "startEnd", i)
 
+    def final_name(self, i: int, which: str, name: str) -> str:
+        return self.prog[i]["dflt"] if name == "default" and which == "start" else name
+
+    def probe_failed(self, i: int, msg: str, tags: str = "C05") -> None:
+        self.trace.append({"l": ["probeFailed", i, msg, tags], "t": round(anyio.current_time() / TICK, 6)})
+
+    def probe_readback(self, i: int, which: str, a: dict[str, Any], obj: Any) -> None:
+        """What a component has just published is there, under the name it was published with (the
+        component's default name for "default" in start()), through every lookup route of the
+        component's own context (no checkpoint in here)."""
+        from asphalt.core import current_context, get_resource_nowait
+
+        spec = self.prog[i]
+        final = spec["dflt"] if a["name"] == "default" and which == "start" else a["name"]
+        t = TYPES[a["ty"]]
+        cc = current_context()
+        try:
+            if get_resource_nowait(t, final) is not obj:
+                self.probe_failed(i, f"get_resource_nowait({a['ty']}, {final!r}) does not return the object just published")
+            if cc.get_resource_nowait(t, final, optional=True) is not obj:
+                self.probe_failed(i, f"get_resource_nowait(optional=True) does not return the object just published as {final!r}")
+            if cc.get_resources(t).get(final) is not obj:
+                self.probe_failed(i, f"get_resources({a['ty']}) does not list the object just published as {final!r}")
+            if cc.get_resource_nowait(t, "no_such_name_x", optional=True) is not None:
+                self.probe_failed(i, "get_resource_nowait(optional=True) of a missing resource is not None")
+        except Exception as e:  # noqa: BLE001
+            self.probe_failed(i, f"reading back the resource just published as {final!r} raised {e!r}")
+
+    def check_events(self) -> None:
+        """Every publication made by a component through its own context was announced once on the
+        context start_component() was called in, with its final name, types, description and kind."""
+        got = list(self.events)
+        for w in self.expected_events:
+            if w not in got:
+                self.probe_failed(0, f"no resource_added event (types, name, description, is_factory)={w} was dispatched "
+                                     f"for a publication made by a component; events: {got[:6]}", "C05,C18")
+                return
+            got.remove(w)
+        # what is left may only be the generation of a published factory's resource in this context
+        facs = [w for w in self.expected_events if w[3]]
+        got = [g for g in got if not (g[3] is False and any(set(g[0]) <= set(f[0]) and g[1:3] == f[1:3] for f in facs))]
+        if got:
+            self.probe_failed(0, f"resource_added events without a publication: {got[:4]}", "C05,C18")
+
     def probe_context(self, i: int) -> None:
         """C12 inside a component: the current context is the component's own; a context created here
         takes the context start_component() was called in as its parent. (Checked without a checkpoint.)"""
@@ -147,7 +216,8 @@ class StartupRun:
         inner = Context()
         ok = inner.parent is self.surrounding and cc is not self.surrounding
         if not ok:
-            self.trace.append({"l": ["probeFailed", i], "t": round(anyio.current_time() / TICK, 6)})
+            self.probe_failed(i, "a context created inside prepare()/start() did not take the context start_component "
+                                 "was called in as its parent, or the component does not run in its own context", "C05,C12")
 
     async def probe_nested(self, i: int) -> None:
         from asphalt.core import Context, current_context
@@ -157,7 +227,8 @@ class StartupRun:
             ok = current_context() is inner and inner.parent is self.surrounding
         ok = ok and current_context() is cc
         if not ok:
-            self.trace.append({"l": ["probeFailed", i], "t": round(anyio.current_time() / TICK, 6)})
+            self.probe_failed(i, "entering/leaving a nested context inside prepare()/start() did not set/restore the "
+                                 "current context, or its parent is not the context start_component was called in", "C05,C12")
 
     async def main(self) -> dict[str, Any]:
         import logging
@@ -171,44 +242,59 @@ class StartupRun:
         outcome: dict[str, Any]
         snapshot: list[list[Any]] | None = None
         extra: dict[str, Any] = {}
-        try:
-            async with Context() as ctx:
-                self.surrounding = ctx
-                try:
-                    # safety net of the harness: if everything is blocked for ever the virtual clock
-                    # jumps here instead of the process hanging
-                    with anyio.move_on_after(10.0 ** 8) as guard:
-                        root = await start_component(self.classes[0], {}, timeout=self.case["timeout"] * TICK)
-                    if guard.cancelled_caught:
-                        outcome = {"k": "hang"}
+        async with anyio.create_task_group() as ltg:      # hosts the harness's event listener
+            try:
+                async with Context() as ctx:
+                    self.surrounding = ctx
+                    self.events: list[tuple[Any, ...]] = []
+                    listening = anyio.Event()
+
+                    async def listen() -> None:
+                        async with ctx.resource_added.stream_events(max_queue_size=100000) as stream:
+                            listening.set()
+                            async for ev in stream:
+                                self.events.append((tuple(TYPES.index(t) for t in ev.resource_types), ev.resource_name,
+                                                    ev.resource_description, ev.is_factory))
+
+                    ltg.start_soon(listen)
+                    await listening.wait()
+                    try:
+                        # safety net of the harness: if everything is blocked for ever the virtual clock
+                        # jumps here instead of the process hanging
+                        with anyio.move_on_after(10.0 ** 8) as guard:
+                            root = await start_component(self.classes[0], {}, timeout=self.case["timeout"] * TICK)
+                        if guard.cancelled_caught:
+                            outcome = {"k": "hang"}
+                            self.log("raised", outcome)
+                            raise _Hang()
+                        self.log("returned")
+                        outcome = {"k": "returned", "root_ok": type(root) is self.classes[0]}
+                    except _Hang:
+                        pass
+                    except ComponentStartError as e:
+                        cause = e.__cause__
+                        ci = next((n for n, c in enumerate(EXN) if type(cause) is c), 0 if isinstance(cause, ValueError) else 99)
+                        outcome = {"k": "cse", "phase": e.phase, "i": paths.get(e.path, -1), "cls": cls_ids.get(e.component_type, -1), "cause": ci}
                         self.log("raised", outcome)
-                        raise _Hang()
-                    self.log("returned")
-                    outcome = {"k": "returned", "root_ok": type(root) is self.classes[0]}
-                except _Hang:
-                    pass
-                except ComponentStartError as e:
-                    cause = e.__cause__
-                    ci = next((n for n, c in enumerate(EXN) if type(cause) is c), 0 if isinstance(cause, ValueError) else 99)
-                    outcome = {"k": "cse", "phase": e.phase, "i": paths.get(e.path, -1), "cls": cls_ids.get(e.component_type, -1), "cause": ci}
-                    self.log("raised", outcome)
-                except TimeoutError:
-                    outcome = {"k": "timeout"}
-                    self.log("raised", outcome)
-                except BaseExceptionGroup as eg:
-                    # a failure and the time-out in the very same instant surface together
-                    outcome = {"k": "group", "members": sorted(type(x).__name__ for x in eg.exceptions)}
-                    self.log("raised", outcome)
-                n_before = len(self.trace)
-                await anyio.sleep(FLUSH)         # anything still running would show up now
-                extra["labels_during_flush"] = len(self.trace) - n_before
-                snapshot = []
-                for ty, t in enumerate(TYPES):
-                    for name, v in ctx.get_resources(t).items():
-                        snapshot.append([ty, name, val_str(v)])
-        except BaseException as e:  # noqa: BLE001 - e.g. an exception surfacing from the root context
-            extra["root_exception"] = repr(e)
-            outcome = locals().get("outcome") or {"k": "other", "exc": repr(e)}
+                    except TimeoutError:
+                        outcome = {"k": "timeout"}
+                        self.log("raised", outcome)
+                    except BaseExceptionGroup as eg:
+                        # a failure and the time-out in the very same instant surface together
+                        outcome = {"k": "group", "members": sorted(type(x).__name__ for x in eg.exceptions)}
+                        self.log("raised", outcome)
+                    n_before = len(self.trace)
+                    await anyio.sleep(FLUSH)         # anything still running would show up now
+                    extra["labels_during_flush"] = len(self.trace) - n_before
+                    self.check_events()
+                    snapshot = []
+                    for ty, t in enumerate(TYPES):
+                        for name, v in ctx.get_resources(t).items():
+                            snapshot.append([ty, name, val_str(v)])
+            except BaseException as e:  # noqa: BLE001 - e.g. an exception surfacing from the root context
+                extra["root_exception"] = repr(e)
+                outcome = locals().get("outcome") or {"k": "other", "exc": repr(e)}
+            ltg.cancel_scope.cancel()
         return {"trace": self.trace, "outcome": outcome, "snapshot": snapshot, **extra}
 
 
@@ -231,6 +317,10 @@ def expand_prog(prog: list[dict[str, Any]]) -> list[dict[str, Any]]:
                 for a in spec[ph]:
                     if a["a"] == "publish" and a.get("td") is not None:
                         acts += [{k: v for k, v in a.items() if k != "td"}, {"a": "regTd", "id": a["td"]}]
+                    elif a["a"] == "publishFactory" and "ty2" in a:
+                        # one call registering the factory under two types
+                        base = {k: v for k, v in a.items() if k != "ty2"}
+                        acts += [base, {**base, "ty": a["ty2"]}]
                     else:
                         acts.append(a)
                 spec[ph] = acts
@@ -250,11 +340,16 @@ class RefRun:
         self.table: dict[tuple[int, str], Any] = {}
         self.events: dict[tuple[int, str], anyio.Event] = {}
         self.failure: dict[str, Any] | None = None
+        self.slow: dict[tuple[int, str], int] = {}          # key -> generation time of its (slow, async) factory
+        self.generating: dict[tuple[int, str], anyio.Event] = {}
+        self.generated: set[tuple[int, str]] = set()
 
     def log(self, *label: Any) -> None:
         self.times.append((tuple(label), round(anyio.current_time() / TICK, 6)))
 
     def publish(self, key: tuple[int, str], val: str) -> None:
+        if val.startswith("g") and key in self.table:
+            return      # a factory never replaces the resource already registered under the key
         self.table[key] = val
         if key in self.events:
             self.events[key].set()
@@ -270,6 +365,8 @@ class RefRun:
                     self.publish((a["ty"], name), f"s{a['v']}")
                     self.log("pub", i, a["ty"], a["name"], a["v"])
                 else:
+                    if a.get("slow") and (a["ty"], name) not in self.table:
+                        self.slow[(a["ty"], name)] = a["slow"]
                     self.publish((a["ty"], name), f"g{a['fid']}")
                     self.log("pubFac", i, a["ty"], a["name"], a["fid"])
             elif k == "await":
@@ -277,9 +374,13 @@ class RefRun:
                 self.log("req", i, a["ty"], a["name"])
                 while key not in self.table:
                     await self.events.setdefault(key, anyio.Event()).wait()
+                await self.generate(key)
                 self.log("got", i, a["ty"], a["name"], self.table[key])
             elif k == "awaitOpt":
-                self.log("gotOpt", i, a["ty"], a["name"], self.table.get((a["ty"], a["name"])))
+                key = (a["ty"], a["name"])
+                if key in self.table:
+                    await self.generate(key)
+                self.log("gotOpt", i, a["ty"], a["name"], self.table.get(key))
             elif k == "tick":
                 if a["d"]:
                     await anyio.sleep(a["d"] * TICK)
@@ -294,6 +395,19 @@ class RefRun:
                                 "cls": i, "cause": a["e"]}
                 raise RuntimeError("component failure")
         self.log("prepEnd" if which == "prep" else "startEnd", i)
+
+    async def generate(self, key: tuple[int, str]) -> None:
+        """The first lookup of a key served by a slow asynchronous factory runs it; lookups made meanwhile
+        wait for that generation."""
+        if key not in self.slow or key in self.generated:
+            return
+        if key in self.generating:
+            await self.generating[key].wait()
+            return
+        ev = self.generating[key] = anyio.Event()
+        await anyio.sleep(self.slow[key] * TICK)
+        self.generated.add(key)
+        ev.set()
 
     async def comp(self, i: int) -> None:
         spec = self.prog[i]
